@@ -32,6 +32,15 @@ def MIN(a, b):
     return ITE(a <= b, a, b)
 
 
+def DIV(a, b):
+    """floor division by a positive constant"""
+    if smt():
+        from pyvc.values import Int as _I
+
+        return _I.unwrap(a) / b
+    return a // b
+
+
 def SAME_BYTES(a, b):
     """the same byte string (identity of content)"""
     if smt():
@@ -111,7 +120,7 @@ class _ReadBits:
             "advance": s.self._bit_offset == o._bit_offset + n,
             "frame": READER_FRAME(s),
             # proof hints (instances of Lean lemmas; evaluated as checks in the native reading)
-            "hint": AND(H_SPLIT(o._data, o._bit_offset, 8 * (eff / 8 if smt() else eff // 8), eff % 8),
+            "hint": AND(H_SPLIT(o._data, o._bit_offset, 8 * DIV(eff, 8), eff % 8),
                         H_POW2_MONO(eff, n)),
         }
 
@@ -175,6 +184,124 @@ class _Remaining:
 
 inline_ok(READER + ".bit_offset", WRITER + ".bit_offset")
 
+
+# ------------------------------------------------------------------------------------------------ _BitWriter
+def DIV(a, b):
+    """floor division by a positive constant"""
+    if smt():
+        from pyvc.values import Int as _I
+
+        return _I.unwrap(a) / b
+    return a // b
+
+
+def CEIL8(x):
+    return DIV(x + 7, 8)
+
+
+def TAIL_ZERO(buf, off):
+    """every bit of the buffer at or beyond position `off` is zero"""
+    return BITSVAL(buf, off, 8 * DLEN(buf) - off, unfold=False) == 0
+
+
+def PREFIX_PRESERVED(new, old, upto):
+    """every read that ends at or before bit `upto` gives the same value on both byte strings"""
+    if smt():
+        from pyvc import bittheory as bt
+
+        p, k = z3.FreshConst(z3.IntSort(), "p"), z3.FreshConst(z3.IntSort(), "k")
+        lhs = bt.bitsval_f(new.arr, new.length, p, k)
+        return z3.ForAll([p, k], z3.Implies(z3.And(p >= 0, k >= 0, p + k <= upto),
+                                            lhs == bt.bitsval_f(old.arr, old.length, p, k)), patterns=[lhs])
+    from pyvc.bittheory import native_bit
+
+    return all(native_bit(bytes(new), q) == native_bit(bytes(old), q) for q in range(upto))
+
+
+@class_spec(WRITER)
+class _WriterSpec:
+    fields = dict(_buffer=ByteArray, _bit_offset=Int)
+    mutable = ["_buffer", "_bit_offset"]
+
+    def invariant(self):
+        # WFw: the buffer holds exactly the bytes touched so far and nothing beyond the write position
+        return {"offset-nonneg": self._bit_offset >= 0,
+                "length": DLEN(self._buffer) == CEIL8(self._bit_offset),
+                "tail-zero": TAIL_ZERO(self._buffer, self._bit_offset)}
+
+
+@contract(WRITER + ".__init__", props=["C06", "C14"])
+class _WriterInit:
+    def post(s):
+        return {"empty": AND(DLEN(s.self._buffer) == 0, s.self._bit_offset == 0)}
+
+
+@contract(WRITER + ".write_bits", props=["C06", "C14"])
+class _WriteBits:
+    params = dict(value=Int, bit_length=Int)
+    modifies = ["_buffer", "_bit_offset"]
+
+    def pre(s):
+        return {"count-nonneg": s.bit_length >= 0}
+
+    def decreases(s):
+        return s.bit_length
+
+    def post(s):
+        o, w = s.old.self, s.self
+        n = s.bit_length
+        fb8 = 8 * DIV(n, 8)
+        return {
+            # bits written so far ++ lsb(value, n): earlier bits unchanged, the n new bits are the low bits of value
+            "prefix": PREFIX_PRESERVED(w._buffer, o._buffer, o._bit_offset),
+            "written": BITSVAL(w._buffer, o._bit_offset, n, unfold=False) == LSB(s.value, n),
+            "advance": w._bit_offset == o._bit_offset + n,
+            "hint": AND(H_SPLIT(w._buffer, o._bit_offset, fb8, n % 8), H_LSB_SPLIT(s.value, fb8, n % 8)),
+        }
+
+
+@loop_invariant(WRITER + ".write_bits", loop=0)
+def _write_bits_slow(s):
+    w, o = s.self, s.old.self
+    cur = o._bit_offset + s.i
+    buf = w._buffer
+    return {
+        "length": DLEN(buf) == ITE(s.i > 0, CEIL8(cur), DLEN(o._buffer)),
+        "prefix": PREFIX_PRESERVED(buf, o._buffer, o._bit_offset),
+        "written": BITSVAL(buf, o._bit_offset, s.i, unfold=False) == LSB(s.value, s.i),
+        "tail-zero": TAIL_ZERO(buf, cur),
+        "offset-unchanged": w._bit_offset == o._bit_offset,
+        "hint": AND(H_LSB_STEP(s.value, s.i), H_BEYOND(buf, cur, 8 * (DLEN(buf) + 1) - cur)),
+    }
+
+
+@contract(WRITER + ".align_to", props=["C06", "C14"])
+class _WriterAlign:
+    params = dict(bit_alignment=Int)
+    modifies = ["_buffer", "_bit_offset"]
+
+    def post(s):
+        o, w = s.old.self, s.self
+        a = s.bit_alignment
+        new = w._bit_offset
+        return {
+            "no-op-for-nonpositive": IMPLIES(a <= 0, lambda: AND(new == o._bit_offset, SAME_BYTES(w._buffer, o._buffer))),
+            "aligned": IMPLIES(a > 0, lambda: AND(new % a == 0, new >= o._bit_offset, new < o._bit_offset + a)),
+            "prefix": PREFIX_PRESERVED(w._buffer, o._buffer, o._bit_offset),
+            "zero-padding": BITSVAL(w._buffer, o._bit_offset, new - o._bit_offset, unfold=False) == 0,
+        }
+
+
+@contract(WRITER + ".finish", props=["C06", "C14"])
+class _WriterFinish:
+    returns = Bytes
+
+    def post(s):
+        w = s.self
+        return {"content": SAME_BYTES(s.result, w._buffer),
+                "whole-bytes": DLEN(s.result) == CEIL8(w._bit_offset),
+                "padding-zero": TAIL_ZERO(s.result, w._bit_offset)}
+
 # ------------------------------------------------------------------------------------------------ native harness
 from pyvc.native import NativeSuite
 
@@ -234,6 +361,52 @@ NATIVE.add(READER + ".align_to", _gen_reader, _build_align)
 NATIVE.add(READER + ".bounded_subreader", _gen_reader, _build_sub)
 NATIVE.add(READER + ".remaining_bits", _gen_reader, _build_remaining)
 NATIVE.add(READER + ".__init__", _gen_reader, _build_reader_init)
+
+
+
+def _gen_writer(rng, i):
+    ops = [(rng.choice([0, 1, 5, 255, 256, 65535, -1, -2, 2 ** 40 + 12345, rng.randrange(-2 ** 20, 2 ** 70)]),
+            rng.choice([0, 1, 2, 3, 7, 8, 9, 12, 16, 17, 24, 33, 64])) for _ in range(rng.choice([0, 1, 2, 3]))]
+    return {"ops": ops, "value": rng.choice([0, 1, 2, 170, 255, 256, 43690, -1, -129, 2 ** 64 - 1, rng.randrange(-2 ** 66, 2 ** 66)]),
+            "n": rng.choice([0, 1, 2, 3, 7, 8, 9, 12, 15, 16, 17, 24, 31, 32, 33, 64]),
+            "a": rng.choice([-1, 0, 1, 2, 3, 8, 16, 64])}
+
+
+def _mk_writer(d):
+    from pydsdl import _serdes
+
+    w = _serdes._BitWriter()
+    for v, n in d["ops"]:
+        w.write_bits(v, n)
+    return w
+
+
+def _build_write_bits(d):
+    w = _mk_writer(d)
+    return (lambda: w.write_bits(d["value"], d["n"])), {"self": w, "value": d["value"], "bit_length": d["n"]}
+
+
+def _build_walign(d):
+    w = _mk_writer(d)
+    return (lambda: w.align_to(d["a"])), {"self": w, "bit_alignment": d["a"]}
+
+
+def _build_finish(d):
+    w = _mk_writer(d)
+    return (lambda: w.finish()), {"self": w}
+
+
+def _writer_inv_native(s):
+    w = s.self
+    return (w._bit_offset >= 0 and len(w._buffer) == (w._bit_offset + 7) // 8
+            and BITSVAL(w._buffer, w._bit_offset, 8 * len(w._buffer) - w._bit_offset) == 0)
+
+
+_WriteBits.native_extra_post = staticmethod(_writer_inv_native)
+_WriterAlign.native_extra_post = staticmethod(_writer_inv_native)
+NATIVE.add(WRITER + ".write_bits", _gen_writer, _build_write_bits)
+NATIVE.add(WRITER + ".align_to", _gen_writer, _build_walign)
+NATIVE.add(WRITER + ".finish", _gen_writer, _build_finish)
 
 NOT_COVERED = []
 EXPLANATION = ""
